@@ -302,10 +302,28 @@ func applyOptions(w *wsutil.Writer, cfg WCfg) *wsflate.MessageState {
 		ms = &wsflate.MessageState{}
 		ms.SetCompressed(cfg.Ext == 2)
 	}
+	lastExts, lastExtsCopy = nil, nil
 	if xs := cfg.extensions(ms); len(xs) > 0 {
 		w.SetExtensions(xs...)
+		lastExts, lastExtsCopy = xs, append([]wsutil.SendExtension(nil), xs...)
 	}
 	return ms
+}
+
+// lastExts is the slice most recently spread into SetExtensions (it stays the
+// application's: SetExtensions(xs...) hands the library the very slice), and
+// a copy of its elements.
+var lastExts, lastExtsCopy []wsutil.SendExtension
+
+// extsIntact reports whether the application's extension slice still holds
+// what it put there.
+func extsIntact() bool {
+	for i := range lastExts {
+		if lastExts[i] != lastExtsCopy[i] {
+			return false
+		}
+	}
+	return true
 }
 
 // rsv2Ext is an application extension that marks every frame with RSV2.
